@@ -292,6 +292,7 @@ let mon_c05 (r : runres) (sc : scenario) =
   let closed_once : (int, unit) Hashtbl.t = Hashtbl.create 16 in
   let initial = fds_of sc.sc_world main in
   let reap_failed = ref false in
+  let reap_intr = ref false in
   let all_children = ref [] and must_reap = ref [] in
   let one_event (e : event) =
     if by main e then begin
@@ -311,7 +312,8 @@ let mon_c05 (r : runres) (sc : scenario) =
       if is_call CFree e && ret e = -1 then fail "C05/double-free" (Printf.sprintf "free of block %d which is not live" (arg 0 e));
       if is_call CRealloc e && ret e = -1 then fail "C05/double-free" "realloc of a block which is not live";
       if is_call CFork e && ret e > 0 then all_children := ret e :: !all_children;
-      if is_call CWaitpid e && ret e = -1 && i e.e_errno <> 10 then reap_failed := true
+      if is_call CWaitpid e && ret e = -1 && i e.e_errno = 4 then reap_intr := true;
+      if is_call CWaitpid e && ret e = -1 && i e.e_errno <> 10 && i e.e_errno <> 4 then reap_failed := true
     end in
   let tbl = walk r (fun _ _ st evs ->
       List.iter one_event evs;
@@ -322,7 +324,8 @@ let mon_c05 (r : runres) (sc : scenario) =
   if r.r_final = FDone then begin
     if not !reap_failed then
       List.iter (fun c -> if not (reaped r.r_last c) then
-                    fail "C05/unreaped" (Printf.sprintf "child %d (failed start or status returned) is not reaped" c)) !must_reap;
+                    fail (if !reap_intr then "C05/unreaped/waitpid-interrupted" else "C05/unreaped")
+                      (Printf.sprintf "child %d (failed start or status returned) is not reaped" c)) !must_reap;
     let live_handles = Hashtbl.fold (fun _ hi n -> if hi.live then n + 1 else n) tbl 0 in
     let in_child_run = List.exists (fun st -> match st.s_op, st.s_res with OStart (_, _, o, _, _), RInt rr -> o.o_fork && i rr = 0 | _ -> false) r.r_steps in
     if live_handles = 0 && not in_child_run then begin
@@ -358,10 +361,14 @@ let mon_c04 (r : runres) (sc : scenario) =
           let live w = srt (List.filter_map (fun (k, (l, _)) -> if l then Some (i k) else None) (heap_list w)) in
           if live st.s_before <> live st.s_after then
             fail "C04/fail-residue/heap" (Printf.sprintf "start returned %d but allocations remain" rr);
-          let waitfail = List.exists (fun e -> by main e && is_call CWaitpid e && ret e = -1) evs in
+          (* a waitpid that the plan makes fail with anything but EINTR cannot be repaired by the caller
+             (H-reap); an INTERRUPTED waitpid can be retried, so a child left behind after it counts *)
+          let waitfail = List.exists (fun e -> by main e && is_call CWaitpid e && ret e = -1 && i e.e_errno <> 4) evs in
+          let waitintr = List.exists (fun e -> by main e && is_call CWaitpid e && ret e = -1 && i e.e_errno = 4) evs in
           if not waitfail then
             List.iter (fun c -> if not (reaped st.s_after c) then
-                          fail "C04/fail-residue/child-left" (Printf.sprintf "start returned %d but child %d was left behind" rr c)) kids;
+                          fail (if waitintr then "C04/fail-residue/child-left/waitpid-interrupted" else "C04/fail-residue/child-left")
+                            (Printf.sprintf "start returned %d but child %d was left behind" rr c)) kids;
           (* the handle is still not started: next Pid says EINVAL *)
           (match List.nth_opt r.r_steps (idx + 1) with
            | Some { s_op = OS (SPid h'); s_res = RInt p; _ } when h' = h ->
